@@ -177,6 +177,26 @@ def sysconst_events(binp, pid, tag):
     return evs
 
 
+def content_check(rep, replay, r, A, B):
+    """element by element: what A held is unchanged in every field (GROUP / FUNCTION may gain members), and an element of B
+    that arrives under its own name arrives whole"""
+    import parsercases as pc
+    ma, mb, mr = gm.module_of(r["snaps"][0]["tree"]), gm.module_of(r["b_tree"]), gm.module_of(r["snaps"][1]["tree"])
+    for kind, field in gm.FIELD_OF_KIND.items():
+        after = {gm._s(e.get("name")): e for e in mr.get(field) or []}
+        a_names = {gm._s(e.get("name")) for e in ma.get(field) or []}
+        for e0 in ma.get(field) or []:
+            n = gm._s(e0.get("name"))
+            if n is not None and n in after and kind not in ("GROUP", "FUNCTION") and pc.strip_layout(e0) != pc.strip_layout(after[n]):
+                rep.violation(f"merge:AUnchanged:content:{kind}", f"merge altered {kind} {n} of A", replay)
+        if len(B["refs"]) == 0:         # no reference of B can have been rewritten
+            ns_names = {x[2] for x in A["elems"] if x[0] == gm.NS_OF[kind]}
+            for e0 in mb.get(field) or []:
+                n = gm._s(e0.get("name"))
+                if n is not None and n not in ns_names and n in after and n not in a_names and pc.strip_layout(e0) != pc.strip_layout(after[n]):
+                    rep.violation(f"merge:BRepresented:content:{kind}", f"{kind} {n} of B arrives altered", replay)
+
+
 def run(pid, tier, selftest):
     t0 = time.time()
     rep = vlib.Reporter(pid)
@@ -220,6 +240,8 @@ def run(pid, tier, selftest):
         R = gm.flat(graphlib.graph_of_tree(sn["tree"]))
         events.append({"ev": "merge", "A": A, "B": B, "R": R})
         idx.append(i)
+        if pid == "C08":
+            content_check(rep, {"kind": "merge", "case": c, "a": mo[i]["a"], "b": mo[i]["b"]}, r, A, B)
     failed, tr = graphlib.judge(events, f"Trace_Graph_{pid}", pid)
     for k, names in sorted(failed.items()):
         i = idx[k]
@@ -319,5 +341,7 @@ def replay(pid, path):
             failed, _ = graphlib.judge([ev], f"Trace_Graph_{pid}", "replay")
             if failed:
                 rep.violation(f"merge:{'+'.join(failed[0])}", f"merge result violates {failed[0]}", case)
+            if pid == "C08":
+                content_check(rep, case, r0, ev["A"], ev["B"])
     print("replay:", "violation reproduced" if rep.new else "no violation")
     return rep.exit_code()
